@@ -114,6 +114,22 @@ impl<'a, 'tcx> Cx<'a, 'tcx> {
                 o.put("path", J::s(def_str(self.tcx, *did)));
                 o.put("crate", J::s(crate_of(self.tcx, *did)));
                 o.put("gargs", gargs(args));
+                // a tuple-struct / tuple-variant constructor used as a function value
+                if let DefKind::Ctor(of, _) = self.tcx.def_kind(*did) {
+                    let parent = self.tcx.parent(*did);
+                    let mut c = J::obj();
+                    match of {
+                        rustc_hir::def::CtorOf::Variant => {
+                            c.put("adt", J::s(def_str(self.tcx, self.tcx.parent(parent))));
+                            c.put("variant", J::s(self.tcx.item_name(parent).to_string()));
+                        }
+                        rustc_hir::def::CtorOf::Struct => {
+                            c.put("adt", J::s(def_str(self.tcx, parent)));
+                            c.put("variant", J::s(self.tcx.item_name(parent).to_string()));
+                        }
+                    }
+                    o.put("ctor", c);
+                }
                 // trait method? record the trait and try to resolve to an impl
                 if let Some(tr) = self.tcx.trait_of_assoc(*did) {
                     o.put("trait", J::s(def_str(self.tcx, tr)));
